@@ -59,6 +59,10 @@ def replay_one(case):
     for mode in ("asis", "evaluated"):
         if mode == "evaluated" and exp_c == "err":
             continue   # SymPy's own evaluation may legitimately remove the offending node: nothing is required
+        if mode == "evaluated" and "q0" in prog:
+            # a zero-valued quantity is a positive symbol to SymPy: oo * q0 -> oo, 0 ** q0 -> 0 before the library sees it
+            out.append((mode, "outside", "SymPy evaluates around a zero-valued quantity symbol"))
+            continue
         try:
             with time_limit(5):
                 expr = qc_common.build(prog, _LEAVES, evaluate=(mode == "evaluated"))
